@@ -2,6 +2,7 @@ package main
 
 import (
 	"bytes"
+	"context"
 	"errors"
 	"fmt"
 	"io"
@@ -11,6 +12,7 @@ import (
 	"path/filepath"
 	"strings"
 	"sync"
+	"syscall"
 	"time"
 
 	"github.com/whawty/auth/sasl"
@@ -26,10 +28,52 @@ type c05Outcome struct {
 	MsgLen int
 	Binary bool
 	Delay  int // the callback takes this many milliseconds (a busy store)
+	// ErrKind selects what the non-nil error is (ErrLen > 0): "" plain text; otherwise errors as a store under stress
+	// produces them - transient OS errors (wrapped or not), deadline and context errors, an error with Temporary()/Timeout()
+	ErrKind string
+}
+
+type c05TempErr struct{ text string }
+
+func (e c05TempErr) Error() string   { return e.text }
+func (e c05TempErr) Temporary() bool { return true }
+func (e c05TempErr) Timeout() bool   { return true }
+
+var c05ErrKinds = []string{"emfile-patherror", "eintr-wrapped", "eagain", "etimedout-syscallerror", "deadline-exceeded", "context-deadline", "context-canceled", "io-eof", "unexpected-eof", "temporary-timeout", "net-operror-timeout", "joined"}
+
+func c05MkErr(kind string, n int) error {
+	text := strings.Repeat("é", n/2) + strings.Repeat("e", n%2)
+	switch kind {
+	case "emfile-patherror":
+		return &os.PathError{Op: "open", Path: "/var/lib/whawty/" + text, Err: syscall.EMFILE}
+	case "eintr-wrapped":
+		return fmt.Errorf("reading hash of %s: %w", text, syscall.EINTR)
+	case "eagain":
+		return syscall.EAGAIN
+	case "etimedout-syscallerror":
+		return os.NewSyscallError("read", syscall.ETIMEDOUT)
+	case "deadline-exceeded":
+		return fmt.Errorf("%s: %w", text, os.ErrDeadlineExceeded)
+	case "context-deadline":
+		return context.DeadlineExceeded
+	case "context-canceled":
+		return fmt.Errorf("%s: %w", text, context.Canceled)
+	case "io-eof":
+		return io.EOF
+	case "unexpected-eof":
+		return io.ErrUnexpectedEOF
+	case "temporary-timeout":
+		return c05TempErr{text}
+	case "net-operror-timeout":
+		return &net.OpError{Op: "dial", Net: "tcp", Err: c05TempErr{text}}
+	case "joined":
+		return errors.Join(errors.New(text), syscall.ENFILE)
+	}
+	return errors.New(text)
 }
 
 func (o c05Outcome) String() string {
-	return fmt.Sprintf("ok=%v errlen=%d msglen=%d binary=%v delay_ms=%d", o.OK, o.ErrLen, o.MsgLen, o.Binary, o.Delay)
+	return fmt.Sprintf("ok=%v errlen=%d errkind=%q msglen=%d binary=%v delay_ms=%d", o.OK, o.ErrLen, o.ErrKind, o.MsgLen, o.Binary, o.Delay)
 }
 
 type c05Expect struct {
@@ -79,7 +123,7 @@ func (m *c05Mon) cb(login, password, service, realm string) (bool, string, error
 	}
 	var err error
 	if o.ErrLen > 0 {
-		err = errors.New(strings.Repeat("é", o.ErrLen/2) + strings.Repeat("e", o.ErrLen%2))
+		err = c05MkErr(o.ErrKind, o.ErrLen)
 	}
 	return o.OK, string(msg), err
 }
@@ -193,6 +237,11 @@ func c05Cases(rng *rand.Rand) []c05Case {
 					outcomes = append(outcomes, c05Outcome{OK: ok, ErrLen: el, MsgLen: ml + 2, Binary: true})
 				}
 			}
+		}
+	}
+	for _, ok := range []bool{true, false} {
+		for _, k := range c05ErrKinds {
+			outcomes = append(outcomes, c05Outcome{OK: ok, ErrLen: 12, ErrKind: k, MsgLen: 7}, c05Outcome{OK: ok, ErrLen: 12, ErrKind: k, MsgLen: 7}, c05Outcome{OK: ok, ErrLen: 300, ErrKind: k, MsgLen: 0})
 		}
 	}
 	pickOutcome := func() c05Outcome {
@@ -400,7 +449,7 @@ func c05Run(R *vr.Result, mon *c05Mon, sock string, c c05Case) {
 		R.Violate(fmt.Sprintf("c05:callback-count=%d-on-valid-request", calls), "a complete valid request must lead to exactly one callback invocation", c.ID, wit)
 	}
 	if calls > 1 {
-		R.Violate("c05:callback-called-twice", "callback invoked more than once for one connection", c.ID, wit)
+		R.Violate("c05:callback-called-twice"+map[bool]string{true: ":error=" + c.Outcome.ErrKind}[c.Outcome.ErrKind != ""], "callback invoked more than once for one connection", c.ID, wit)
 	}
 	if bad != "" {
 		R.Violate("c05:callback-args-differ", "callback arguments differ from the decoded fields: "+bad, c.ID, wit)
@@ -415,6 +464,12 @@ func c05Run(R *vr.Result, mon *c05Mon, sock string, c c05Case) {
 	replyOK := len(reply) >= 2 && int(reply[0])<<8|int(reply[1]) == len(reply)-2
 	approved := valid && calls == 1 && c.Outcome.OK && c.Outcome.ErrLen == 0
 	sigOutcome := fmt.Sprintf("msglen=%d:errlen=%d", c.Outcome.MsgLen, c.Outcome.ErrLen)
+	if c.Outcome.ErrKind != "" {
+		sigOutcome += ":error=" + c.Outcome.ErrKind
+		if calls > 0 {
+			R.Count("callback_errors_of_os_kind", 1)
+		}
+	}
 	if !replyOK {
 		if len(reply) == 0 {
 			R.Violate("c05:no-reply:"+c05ReplyClass(c, calls), "the server closed the connection without sending a reply", c.ID, wit)
